@@ -119,6 +119,49 @@ def has_paths(t):
     return any(any_path(a) for l in leaves(t) for a in list(l.args) + list(l.kwargs.values()))
 
 
+def det_twin(t):
+    """`t` with every numeric primitive part of its data-path arguments replaced by an equal-valued, differently-typed
+    twin (1 <-> 1.0, True -> 1 ...), or None when there is none.  No random choice: the first twin listed."""
+    changed = [False]
+
+    def tw(v):
+        if isinstance(v, (bool, int, float)) and not isinstance(v, str) and v in G.TWINS:
+            opts = [x for x in G.TWINS[v] if type(x) is not type(v) and isinstance(x, (int, float)) and not isinstance(x, bool)]
+            if opts:
+                changed[0] = True
+                return opts[0]
+        return v
+
+    def arg(a):
+        if isinstance(a, PathT):
+            return a.replace(parts=[Prim(tw(p.v)) if isinstance(p, Prim) else p for p in a.parts])
+        return a
+
+    def rec(x):
+        if isinstance(x, Op):
+            return Op(x.op, rec(x.l), rec(x.r))
+        if isinstance(x, Leaf):
+            return x.replace(args=tuple(arg(a) for a in x.args), kwargs={k: arg(v) for k, v in x.kwargs.items()})
+        return x
+
+    out = rec(t)
+    return out if changed[0] else None
+
+
+def scramble(x, depth=0):
+    """The caller edits the JSON-like form it was handed, in place, at every nesting level below the top."""
+    if isinstance(x, dict):
+        for v in list(x.values()):
+            scramble(v, depth + 1)
+        if depth >= 1:
+            x["<caller>"] = ["<caller>"]
+    elif isinstance(x, list):
+        for v in x:
+            scramble(v, depth + 1)
+        if depth >= 1:
+            x.append("<caller>")
+
+
 def body(case):
     t, probes, special = case
     out = Outcome()
@@ -171,6 +214,32 @@ def body(case):
                             return out
         except AttributeError:
             pass
+    # before the round trip proper: (1) the type-twin of the condition (path arguments keyed 1.0 instead of 1 ...) makes
+    # the trip first - what comes back for THIS condition must not depend on it; (2) the condition is serialised once
+    # and the caller edits the structure it was handed - the condition itself keeps its meaning (checked below against
+    # a freshly built copy and the reference)
+    tw = det_twin(t)
+    if tw is not None:
+        out.label("type-twin-first")
+        try:
+            with warnings.catch_warnings():
+                warnings.simplefilter("ignore")
+                ctw = build.build_cond(tw)
+                ctw2 = ns.c.ConditionLike.from_json_like(json.loads(json.dumps(ctw.to_json_like())))
+            if not ((ctw2 == ctw) is True):
+                out.add("rebuilt-equal", "rebuilt-equal|type-twin", f"{show(ctw,250)} -> {show(ctw2,250)}")
+                return out
+        except Exception:
+            out.label("type-twin-refused")
+    try:
+        scramble(c.to_json_like())
+        fresh = build.build_cond(t)
+        if not ((c == fresh) is True and (fresh == c) is True):
+            out.add("rebuilt-equal", "serialised-form-is-the-callers", f"after the caller edited the JSON-like form it was handed, the condition is {show(c,250)}, built as {show(fresh,250)}")
+            return out
+    except Exception as e:
+        out.exc("serialise", e)
+        return out
     try:
         js = c.to_json_like()
     except Exception as e:
@@ -220,5 +289,75 @@ def body(case):
     return out
 
 
+# ------------------------------------------------------------------ arguments the caller still holds
+def gen_owned(r):
+    kind = r.choice(["value", "value", "key"])
+    name = r.choice(["in_", "not_in", "equal_to", "not_equal_to"])
+    if name in ("in_", "not_in") or r.coin():
+        arg = [G.json_value(r, 0) for _ in range(r.between(1, 4))]
+        new = G.json_value(r, 0)
+        edit = ("append", new)
+    else:
+        arg = {r.choice(["a", "b", "kind"]): G.json_value(r, 0) for _ in range(r.between(1, 2))}
+        edit = ("set", r.choice(["a", "z"]), G.json_value(r, 0))
+    probes = c09.probes_for(r, {kind})
+    # probes that hold the old and the new argument, so that the difference shows
+    extra = [copy.deepcopy(arg), 0]
+    return kind, name, arg, edit, probes, r.coin()
+
+
+def apply_owned(arg, edit):
+    if edit[0] == "append":
+        arg.append(copy.deepcopy(edit[1]))
+    else:
+        arg[edit[1]] = copy.deepcopy(edit[2])
+
+
+def body_owned(case):
+    """The caller builds a condition from a list / mapping it keeps, serialises the condition, then changes its own
+    list / mapping.  Whether the condition follows that change is nowhere stated (the DSL keeps a reference); whatever
+    the condition now means, its serialised form means the same: the rebuilt condition equals it and filters like it."""
+    kind, name, arg0, edit, probes, in_combination = case
+    out = Outcome()
+    ns = build.ns()
+    out.nontrivial = True
+    out.label(f"owned:{name}:{type(arg0).__name__}")
+    arg = copy.deepcopy(arg0)
+    out.sample = f"{kind}.{name}({show(arg,150)}), serialised, then the caller's own argument gets {show(edit,100)}"
+    cls = {"value": ns.c.Value, "key": ns.c.Key}[kind]
+    try:
+        leaf = getattr(cls, name)(arg)
+        c = (leaf | ns.c.Value.null()) if in_combination else leaf
+        c.to_json_like()
+        apply_owned(arg, edit)
+        js = c.to_json_like()
+        with warnings.catch_warnings():
+            warnings.simplefilter("ignore")
+            c2 = ns.c.ConditionLike.from_json_like(json.loads(json.dumps(js)))
+    except Exception as e:
+        out.exc("owned-roundtrip", e)
+        return out
+    try:
+        if not ((c2 == c) is True and (c == c2) is True):
+            out.add("rebuilt-equal", "rebuilt-equal|caller-held-argument", f"{show(c,200)} serialises to {show(js,200)}, rebuilt {show(c2,200)}")
+            return out
+        new_arg = copy.deepcopy(arg0)
+        apply_owned(new_arg, edit)
+        witnesses = [list(arg0) + list(new_arg) if isinstance(arg0, list) else [arg0, new_arg]]
+        if kind == "key":
+            witnesses = [{k: 1 for k in w if isinstance(k, (str, int, float, bool)) or k is None} or {"a": 1} for w in witnesses]
+        for pd in list(probes) + witnesses:
+            if not isinstance(pd, (list, dict)) or not pd:
+                continue
+            a, b = c.filter(pd).result, c2.filter(pd).result
+            if a != b:
+                out.add("filters-identically", "filters-identically|caller-held-argument", f"{show(c,200)} on {show(pd,150)}: original {a} rebuilt {b}")
+                return out
+    except Exception as e:
+        out.exc("owned-compare", e)
+    return out
+
+
 def tests(tier):
-    return [TestSpec("roundtrip", gen_case, body, {"quick": 40, "thorough": 24000}, factors=SHAPES, tape=1024, fuzz={"thorough": 60000})]
+    return [TestSpec("caller-held-arguments", gen_owned, body_owned, {"quick": 1500, "thorough": 100000}, tape=768),
+            TestSpec("roundtrip", gen_case, body, {"quick": 40, "thorough": 24000}, factors=SHAPES, tape=1024, fuzz={"thorough": 60000})]
